@@ -205,6 +205,8 @@ func (c *fnCtx) sortOf(k Kind, t types.Type) string {
 		return "Ref"
 	case KIface:
 		return "Iface"
+	case KReal:
+		return "Real"
 	}
 	return "Int"
 }
